@@ -56,6 +56,37 @@ def r_rk(ctx, rep):
                 rep.holds("R-RK", key, loc(i), "the divide-by-100 flag selects `value / 100`")
             else:
                 rep.violation("R-RK", key, loc(i), "%s: under the RK divide-by-100 flag the value is not divided by the literal 100 (found %s): NUMBER, RK and MULRK encodings of the same number would no longer be numerically equal" % (fname, [b["op"] + " " + str(_num(b["r"])) for b in walk_k(i["then"], "Binary")][:3]))
+        # `match (is_int, d100) { (true, true) => .. / 100.0, .. }`: the arms that take the flag as `true` divide, the others do not
+        for m in walk_k(fn.body, "Match"):
+            sc = unwrap(m["scrut"])
+            if not (isinstance(sc, dict) and sc.get("k") == "Tup"):
+                continue
+            pos = [j for j, x in enumerate(sc.get("es", [])) if path_local(x) and path_local(x)[1] in d100]
+            if not pos:
+                continue
+            j = pos[0]
+            k += 1
+            n += 1
+            key = "%s|R-RK|div100#%d" % (fname, k)
+            wrong = None
+            for a in m["arms"]:
+                pats = a["pat"].get("pats") if a["pat"].get("k") == "Tuple" else None
+                if not pats or j >= len(pats):
+                    continue
+                want = lit_value(pats[j]) if pats[j].get("k") in ("Lit", "Expr") else (pats[j].get("v") if isinstance(pats[j].get("v"), bool) else None)
+                if want is None:
+                    from .kit import pat_literals
+                    lits = pat_literals(pats[j])[0]
+                    want = lits[0] if len(lits) == 1 and isinstance(lits[0], bool) else None
+                divides = any(b["op"] == "/" and _is_100(b["r"]) for b in walk_k(a["body"], "Binary"))
+                if want is True and not divides:
+                    wrong = (a, "an arm taken when the flag is set does not divide by 100")
+                if want is False and divides:
+                    wrong = (a, "an arm taken when the flag is clear divides by 100")
+            if wrong:
+                rep.violation("R-RK", key, loc(wrong[0]), "%s: %s: NUMBER, RK and MULRK encodings of the same number would no longer be numerically equal" % (fname, wrong[1]))
+            else:
+                rep.holds("R-RK", key, loc(m), "the arms of the (.., d100) match divide by 100 exactly when the flag is set")
         if k == 0:
             rep.anchor_missing("R-RK", "uses of the divide-by-100 flag in %s" % fname)
         # `>> 2` on a signed 32-bit value
@@ -486,6 +517,13 @@ def r_counthint(ctx, rep):
                         for c in conds:
                             if any(m["name"] in ("len", "capacity") for m in walk_k(c["cond"], "MethodCall")) or any(bb["op"] in ("<", "<=", ">", ">=") for bb in walk_k(c["cond"], "Binary")):
                                 bad = (b, c)
+                # ... and only an arm that names its element: `Start(_) if <flag>` leaving the loop cuts the search short for
+                # every sheet that has other elements (sheetProtection, autoFilter, ..) in front of the one looked for
+                if not guard_literals(arm) and arm.get("guard") is not None:
+                    for b in walk_k(arm["body"], "Break", "Ret"):
+                        if b["span"].get("desugar") or (b.get("k") == "Break" and b.get("target") not in em["targets"]):
+                            continue
+                        bad = (b, None)
             # exits of the loop that are not tied to an XML event (e.g. a `while n != len` header)
             in_match = {id(x) for x in walk(em["match"])}
             for b in walk_k(em["loop"], "Break"):
